@@ -18,7 +18,7 @@ THEOREMS = [
     "C14_span_never_cant", "C14_expiry_monotone", "C14_expired_total", "C14_zero_span_old_refuted",
     "C14_expired_reads_unknown_partial", "C14_first_read_stale_refuted", "C14_store_keys_nodup", "C14_nonvacuous",
     "C14_held_is_latest", "C14_latest_never_lost", "C14_equal_content_rule_refuted",
-    "C14_delete_only_that_message", "C14_delete_invents_nothing",
+    "C14_delete_only_that_message", "C14_delete_invents_nothing", "C14_merged_array_newest_wins", "C14_merged_array_witness",
 ]
 
 PRELUDE = ("From Coq Require Import ZArith List Bool.\nFrom RV Require Import GenConsts M_Store.\n"
@@ -225,6 +225,7 @@ def run(ctx: Ctx) -> None:
     asyncio.run(end_to_end(ctx, 150 if thorough else 40))
     delete_correspondence(ctx, built)
     deferred_correspondence(ctx, built, 120 if ctx.tier == "thorough" else 40)
+    array_pick_correspondence(ctx, built, 600 if ctx.tier == "thorough" else 200)
     gw.run_async(config_updates, ctx, 60 if ctx.tier == "thorough" else 16)
 
 
@@ -580,6 +581,55 @@ def deferred_correspondence(ctx: Ctx, built: bool, trials: int) -> None:
     ctx.obligation("correspondence:deferred-deletion", not bad and len(rows) == len(impl), "correspondence",
                    f"{len(bad)} of {len(impl)} histories differ; first: {cases[bad[0]]}: model holds {rows[bad[0]]}, the real controller entity {impl[bad[0]]}" if bad or len(rows) != len(impl)
                    else f"{len(impl)} histories of arrivals / expired and live reads / loop turns on a real controller entity: what is held agrees with the model")
+
+
+def array_pick_correspondence(ctx: Ctx, built: bool, trials: int) -> None:
+    """What the REAL _msg_value_msg(msg, zone_idx=z) reads out of an array payload (also one merged from two packets, a zone in it twice)
+    against M_Store.pick, and the statement itself: key by key the later packet's element wins."""
+    from types import SimpleNamespace  # noqa: PLC0415
+
+    from ramses_rf.entity_base import _MessageDB  # noqa: PLC0415
+
+    rng = ctx.rng
+    me = SimpleNamespace(_gwy=None)
+
+    def read(arr, z):
+        payload = [{"zone_idx": f"{zz:02X}", **{f"k{k}": v for k, v in el}} for zz, el in arr]
+        msg = SimpleNamespace(code="000A", payload=payload, _expired=False)
+        got = _MessageDB._msg_value_msg(me, msg, zone_idx=f"{z:02X}")
+        return sorted((int(k[1:]), v) for k, v in (got or {}).items())
+
+    def gen():
+        return [(rng.randrange(4), [(rng.randint(1, 4), rng.randrange(100)) for _ in range(rng.randint(0, 4))]) for _ in range(rng.randint(0, 4))]
+
+    cases, impl = [], []
+    for _ in range(trials):
+        prev, this, z = gen(), gen(), rng.randrange(4)
+        whole, new, old = read(prev + this, z), dict(read(this, z)), dict(read(prev, z))
+        ctx.case(("array-pick", str(prev), str(this), z), any(zz == z for zz, _ in prev) and any(zz == z for zz, _ in this), "merged-array-read")
+        want = sorted({**old, **new}.items())
+        if whole != want:
+            ctx.violation("merged-array-reads-an-older-element", "a zone's value read from a merged array is not the later packet's",
+                          {"prev": prev, "this": this, "zone": z, "read": whole, "want": want}, "input")
+        lit = lambda a: "[" + "; ".join(f"({zz}, [" + "; ".join(f"({k}, {v})" for k, v in el) + "])" for zz, el in a) + "]"  # noqa: E731
+        cases.append(f"({lit(prev + this)}, {z})")
+        impl.append([list(x) for x in whole])
+    if not built:
+        ctx.obligation("correspondence:array-element-selection", False, "correspondence", "model not built")
+        return
+    pre = ("From Coq Require Import ZArith List Bool.\nFrom RV Require Import M_Store.\nImport ListNotations.\nOpen Scope Z_scope.\n"
+           "Set Printing Width 1000000.\nSet Printing Depth 1000000.\n"
+           "Definition rd (c : list (Z * fields) * Z) : list (list Z) := map (fun k => match fget (pick (fst c) (snd c)) k with Some v => [k; v] | None => [] end) [1; 2; 3; 4].\n")
+    rc, out = common.coq_eval("C14ap", {"x": pre + "Eval vm_compute in (map rd " + common.coq_list(cases, ";\n ") + ")."}, timeout=300)["x"]
+    m = re.search(r"=\s*(\[.*\])\s*:\s*list", out, flags=re.S)
+    if rc or not m:
+        ctx.obligation("correspondence:array-element-selection", False, "correspondence", out[-400:])
+        return
+    rows = [[list(x) for x in r if x] for r in eval(m.group(1).replace(";", ","), {"__builtins__": {}})]  # noqa: S307
+    bad = [i for i, (r, g) in enumerate(zip(rows, impl)) if r != g]
+    ctx.obligation("correspondence:array-element-selection", not bad and len(rows) == len(impl), "correspondence",
+                   f"{len(bad)} of {len(impl)} arrays differ; first: {cases[bad[0]]}: model reads {rows[bad[0]]}, the real _msg_value_msg {impl[bad[0]]}" if bad or len(rows) != len(impl)
+                   else f"{len(impl)} array payloads (a zone absent, once, twice; keys missing from some elements): the real _msg_value_msg reads what M_Store.pick reads")
 
 
 def replay(case: dict) -> int:
